@@ -107,3 +107,13 @@ def register(check):
           floors={"quick": {"leak_check_done": 3000, "table_checks": 3000, "termination_runs": 500, "cancel_runs": 500, "raw_conversations": 300},
                   "thorough": {"leak_check_done": 60000, "table_checks": 60000}},
           assumptions=COMMON_ASSUMPTIONS + ["goroutines are attributed to the library if their stack has a github.com/jhump/grpctunnel frame"])
+    check("C08",
+          level="exploration",
+          rule="(a) id storms: 2-64 goroutines each start 1-3 RPCs of mixed shapes at the same instant (some with an expired context or per-RPC credentials), real parallelism inside the bubble plus PRNG Gosched jitter at the yield point between id allocation and the new_stream send, "
+               "x {forward, reverse, nested} x capacity {unbounded,1,8}; judged by the wire monitor (first frame new_stream, ids strictly increasing, no id twice) and the invocation log; "
+               "(b) raw-client id histories from the conversation generator (duplicate / lower / negative new_stream ids, frames for unknown, finished, live-other ids, swaps, drops, multi-mutations); "
+               "non-trivial = wire monitor judged >= 1 new_stream or a raw verdict was reached; distinct = distinct (family, cfg, inputs, op/outcome shape)",
+          nontrivial="wire_streams",
+          floors={"quick": {"idstorm_runs": 100, "idstorm_rpcs": 3000, "idstorm_completed": 2000, "yield:client.newStream.allocated": 3000, "raw_bad_new_stream_id": 30, "raw_conversations": 300},
+                  "thorough": {"idstorm_runs": 3500, "idstorm_rpcs": 100000, "raw_bad_new_stream_id": 500}},
+          assumptions=COMMON_ASSUMPTIONS)
